@@ -173,6 +173,12 @@ func (e *FnEnc) modTargetsOf(x Expr, env *specEnv, src string) []modTarget {
 		}
 		return ts
 	case *EIdent:
+		// a captured variable of a closure: the cell the free variable points to
+		if fv, ok := e.fvPtrs[n.Name]; ok {
+			if pt, ok := typeUnder(fv.T).(*types.Pointer); ok {
+				return e.objTargets(fv.L[0], pt.Elem())
+			}
+		}
 		// global variable
 		if pkg := env.pkgOf(); pkg != nil {
 			if v, ok := pkg.Scope().Lookup(n.Name).(*types.Var); ok {
@@ -932,6 +938,15 @@ func (e *FnEnc) appendAggregate(s, tail Val, elT types.Type, res Val, inPlace, f
 			nw, e.eaddr(rb, e.idxAdd(ro, "k")),
 			e.idxLt("k", s.L[2]), cur, e.eaddr(s.L[0], e.idxAdd(s.L[1], "k")), cur, e.eaddr(tail.L[0], e.idxAdd(tail.L[1], e.idxSub("k", s.L[2]))),
 			nw, e.eaddr(rb, e.idxAdd(ro, "k"))))
+		// the same, stated over the element-address terms that contract clauses use for s[k] (base, offset and
+		// index as separate arguments, no `+` inside the pattern)
+		if newRead := e.eaddrRel(rb, ro, "k"); newRead != e.eaddr(rb, e.idxAdd(ro, "k")) {
+			e.assume(fmt.Sprintf("(forall ((k %s)) (! (=> (and %s %s) (= (select %s %s) (ite %s (select %s %s) (select %s %s)))) :pattern ((select %s %s))))",
+				ix, e.idxLe(e.idxConst(0), "k"), e.idxLt("k", res.L[2]),
+				nw, newRead,
+				e.idxLt("k", s.L[2]), cur, e.eaddrRel(s.L[0], s.L[1], "k"), cur, e.eaddrRel(tail.L[0], tail.L[1], e.idxSub("k", s.L[2])),
+				nw, newRead))
+		}
 		// everything that is not an element slot of the result base is unchanged
 		e.assume(fmt.Sprintf("(forall ((r Int)) (! (=> (not (= (eaddr_base r) %s)) (= (select %s r) (select %s r))) :pattern ((select %s r))))", rb, nw, cur, nw))
 		// in place: slots below off+len unchanged
